@@ -3,6 +3,7 @@
 run ALL property checks on it (one load) and print which properties report a violation.
 Writes /verif/tools/matrix_last.json. Used for the seeded changes, the mutants and the silent variants."""
 import sys, os, subprocess, tempfile, shutil, json, re
+subprocess.run(["/verif/tools/trimcache.sh"])  # keep the Go build cache bounded: every scratch copy adds entries
 from concurrent.futures import ThreadPoolExecutor
 args = sys.argv[1:]
 silent = False
